@@ -9,7 +9,10 @@ HERE = os.path.dirname(os.path.dirname(os.path.abspath(__file__)))
 
 def main():
     p = os.path.join(HERE, 'DESIGN.md')
-    s = open(p).read()
+    whole = open(p).read()
+    a = whole.index('## 9. MANIFEST')
+    b = whole.index('## 10. ', a)
+    s = whole[a:b]          # only the table of section 9
     n = 0
     for i in range(1, 21):
         cid = 'C%02d' % i
@@ -21,7 +24,7 @@ def main():
         rx = re.compile(r'^(\| %s \| [^|]*\| [^|]*\|)[^|]*\|$' % cid, re.M)
         s, k = rx.subn(lambda m: m.group(1) + ' ' + cell + ' |', s)
         n += k
-    open(p, 'w').write(s)
+    open(p, 'w').write(whole[:a] + s + whole[b:])
     print(n, 'rows updated')
 
 
